@@ -69,6 +69,16 @@ def wrappers(r: Rel, others: list[Rel]):
             # the inner query's columns are renamed by an alias column list (whatever the shape of its body)
             out.append(Rel("SELECT t.p AS p, t.q AS q FROM {f0}", (r,), (), (("p", U(c0)), ("q", U(c1))), r.tags + ("alias_cols",), r.cost + 1, (), ("p", "q")))
             out.append(Rel("SELECT * FROM {f0}", (r,), (), (("p", U(c0)), ("q", U(c1))), r.tags + ("alias_cols_star",), r.cost + 1, (), ("p", "q")))
+    # the SAME inner query referenced twice: once bare (columns qualified by its own name: {q0}.col FROM {r0}) and once through an
+    # alias, in a scalar subquery / a self join / an IN subquery, the aliased reference before or after the bare one
+    out.append(Rel("SELECT {q0}.%s + (SELECT MAX(t.%s) FROM {f0}) AS s, {q0}.%s AS p FROM {r0}" % (c0, c1, c1), (r,), (),
+                   (("s", U(c0, c1)), ("p", U(c1))), r.tags + ("bare_and_scalar_alias",), r.cost + 1))
+    out.append(Rel("SELECT {q0}.%s AS p, t.%s AS q FROM {r0} JOIN {f0} ON {q0}.%s = t.%s" % (c0, c1, c0, c0), (r,), (),
+                   (("p", U(c0)), ("q", U(c1))), r.tags + ("bare_join_alias",), r.cost + 1))
+    out.append(Rel("SELECT t.%s AS p, {q0}.%s AS q FROM {f0} JOIN {r0} ON {q0}.%s = t.%s" % (c0, c1, c0, c0), (r,), (),
+                   (("p", U(c0)), ("q", U(c1))), r.tags + ("alias_join_bare",), r.cost + 1))
+    out.append(Rel("SELECT {q0}.%s AS p FROM {r0} WHERE {q0}.%s IN (SELECT t.%s FROM {f0})" % (c0, c1, c1), (r,), (),
+                   (("p", U(c0)),), r.tags + ("bare_in_alias",), r.cost + 1))
     out.append(Rel("SELECT t1.%s AS p, t2.%s AS q FROM {f0} JOIN {f1} ON t1.%s = t2.%s" % (c0, c1, c0, c0), (r, r), (),
                    (("p", U(c0)), ("q", U(c1))), r.tags + ("self_join",), r.cost + 1))
     for o in others:
@@ -102,6 +112,8 @@ def render_inline(r: Rel, renamed=False) -> str:
             items[f"f{i}"] = c
         else:
             items[f"f{i}"] = f"({render_inline(c, renamed)}) AS {a}" + (f"({', '.join(r.child_cols)})" if r.child_cols and i == 0 else "")
+            items[f"r{i}"] = f"({render_inline(c, renamed)}) AS b{i}"   # a derived table cannot be bare: its own name is the alias b<i>
+            items[f"q{i}"] = f"b{i}"
     for i, s in enumerate(r.scalars):
         items[f"s{i}"] = scalar_sql(s)
     sql = r.template.format(**items)
@@ -134,6 +146,7 @@ def render_cte(r: Rel) -> str:
                     existing = f"cte{len(ctes)}{cols}"
                     ctes.append((existing, inner))
                 items[f"f{i}"] = f"{existing.split('(')[0]} AS {a}"
+                items[f"r{i}"] = items[f"q{i}"] = existing.split('(')[0]
         for i, s in enumerate(rel.scalars):
             items[f"s{i}"] = scalar_sql(s)
         return rel.template.format(**items)
@@ -160,6 +173,7 @@ def render_sources(r: Rel):
             name = next((n for n, b in srcs.items() if b == body), None) or f"src{len(srcs)}"
             srcs[name] = body
             items[f"f{i}"] = f"{name} AS {a}" + (f"({', '.join(r.child_cols)})" if r.child_cols and i == 0 else "")
+            items[f"r{i}"] = items[f"q{i}"] = name
     for i, s in enumerate(r.scalars):
         items[f"s{i}"] = scalar_sql(s)
     if not srcs:
